@@ -24,6 +24,7 @@ structure ScaleSt where
   w : PC.Load.ProcT := { name := [] }
   o : PC.Load.ProcT := { name := [] }
   cur : List PC.Load.Replica := []   -- replicas of "w"
+  ended : List Nat := []             -- replica numbers whose command has finished by itself
   launches : Nat := 0
   stops : Nat := 0
 
@@ -34,7 +35,10 @@ def dump (ret : String) (s : ScaleSt) : String :=
   let names := sortStrings ((s.cur ++ other).map fun r => String.ofList r.replicaName)
   let ns := "[" ++ ",".intercalate names ++ "]"
   let info := sortStrings ((s.cur ++ other).map PC.Drv.Load.showReplica)
-  s!"ret={ret} proj={ns} states={ns} logs={ns} run={ns} info=[{",".intercalate info}] alive={s.cur.length + other.length} launches={s.launches} stops={s.stops}"
+  -- a finished replica keeps its configuration, state and log; it is no longer registered as running
+  let live := s.cur.filter fun r => !s.ended.contains r.num
+  let rs := "[" ++ ",".intercalate (sortStrings ((live ++ other).map fun r => String.ofList r.replicaName)) ++ "]"
+  s!"ret={ret} proj={ns} states={ns} snames={ns} logs={ns} run={rs} info=[{",".intercalate info}] alive={live.length + other.length} launches={s.launches} stops={s.stops}"
 
 /-- the property's reference: a fresh load with `replicas: n` -/
 def freshDump (ret : String) (s : ScaleSt) (n : Nat) : String :=
@@ -51,6 +55,15 @@ def scaleStep (s : ScaleSt) (line : String) : ScaleSt × String :=
       let d := dump "ok" s'
       (s', d ++ " ||| " ++ (if impl == d then "ok" else "bad:C13:C13:fresh-load"))
     | _, _, _ => (s, "bad-op")
+  | ["sexit", th] =>
+    match hexDec th with
+    | some target =>
+      let s' := match s.cur.find? fun r => String.ofList r.replicaName == target with
+        | some r => { s with ended := if s.ended.contains r.num then s.ended else s.ended ++ [r.num] }
+        | none => s
+      let d := dump "ok" s'
+      (s', d ++ " ||| " ++ (if impl == d then "ok" else "bad:C13:C13:finished-replica-view"))
+    | none => (s, "bad-op")
   | ["scale", th, n] =>
     match hexDec th, n.toInt? with
     | some target, some n =>
@@ -67,7 +80,10 @@ def scaleStep (s : ScaleSt) (line : String) : ScaleSt × String :=
       else
         let n := n.toNat
         let cur' := PC.Load.scaleTo s.g s.w s.cur n
-        let s' : ScaleSt := { s with cur := cur', launches := s.launches + (n - s.cur.length), stops := s.stops + (s.cur.length - n) }
+        -- removed replicas that were still running are stopped; finished ones are only forgotten
+        let removedLive := (s.cur.filter fun r => r.num ≥ n && !s.ended.contains r.num).length
+        let s' : ScaleSt := { s with cur := cur', launches := s.launches + (n - s.cur.length), stops := s.stops + removedLive,
+                                     ended := s.ended.filter (· < n) }
         let d := dump "ok" s'
         -- the specification is the fresh load with `replicas: n` (theorem `scale_eq_fresh` makes both agree)
         let want := freshDump "ok" s' n
